@@ -6,6 +6,7 @@ CONSTANTS FullRank = 3
  XKeep = 5
  MoreTypes = 0
  TKeep = 1
+ I32Both = 1
  Budget = 1200
 INVARIANT InDomain
 INVARIANT ExplicitIsPermuted
